@@ -1,6 +1,7 @@
 import CodeLimit.Model.ProgText
 import CodeLimit.Gen.Languages
 import CodeLimit.Spec.ProgTreeCanon
+import CodeLimit.Spec.ProgTreeCanonArrow
 /-!
 # Driver operation for program forests (`Spec/ProgTree.lean`, `Model/ProgText.lean`)
 
@@ -136,8 +137,10 @@ def handleTree (cmd : String) (args : List String) : Option String :=
       | none => return "bad-lang"
   | "canon" => some <| run do
       -- `canon <lang index> <forest>` -> `ok <0|1>`: the forest lies in the tree-level canonical fragment of
-      -- the language (`Spec/ProgTreeCanon.lean`), i.e. the UNCONDITIONAL theorems of `Props/C01full.lean`
-      -- (`scan_of_rendered_canon_tree`, `scan_java_…`, `scan_js_…`, `scan_ts_…`) apply to it
+      -- the language (`Spec/ProgTreeCanon.lean`, `Spec/ProgTreeCanonArrow.lean`), i.e. the UNCONDITIONAL
+      -- theorems of `Props/C01full.lean` (`scan_of_rendered_canon_tree`, `scan_java_…`, `scan_js_…`, `scan_ts_…`)
+      -- or, for JavaScript / TypeScript forests with assigned arrow functions as function nodes, of
+      -- `Props/C01arrow.lean` (`scan_js_arrow_of_rendered_canon_tree`, `scan_ts_arrow_…`) apply to it
       let li ← ptNat
       let ns ← ptForest args.length
       let p : Prog PTok := Prog.ofNodes ns
@@ -146,8 +149,8 @@ def handleTree (cmd : String) (args : List String) : Option String :=
         let c := match name with
           | "C" | "C++" | "C#" => p.bare.Canon
           | "Java" => p.bare.CanonJava
-          | "JavaScript" => p.bare.CanonJs
-          | "TypeScript" => p.bare.CanonTs
+          | "JavaScript" => p.bare.CanonJs || p.bare.CanonJsArrow
+          | "TypeScript" => p.bare.CanonTs || p.bare.CanonTsArrow
           | _ => false
         return s!"ok {showB c}"
       | none => return "bad-lang"
